@@ -12,6 +12,18 @@ real `sismic.bdd.execute_bdd` (behave, JSON formatter).  Compared, per step:
 plus the interpreter operations performed (recording Interpreter subclass given as
 interpreter_klass), the sismic.testing predicates against the oracle and against their Coq model,
 the model's matcher against behave's step registry, and the regenerated dispatch obligations.
+
+Values: besides the integers its guards read, every generated chart has two variables (u, w) that hold None, False,
+True, 0, '', strings, (empty) lists / dicts / tuples and are reassigned by actions; `variable` assertions are generated
+about every variable of the context with its own value and with look-alikes of another type, `expression` assertions
+about them too (`u is None`, `not u`, `u == 0`, ...).  Containers reach the Coq model as their repr (a string): they are
+only compared with None / booleans / integers / '' / 'a' / 'None', where == on the repr and == on the value agree.
+
+Run length: the hand-written charts corpus/C19/*.yaml (events e0 e1 e2) go through the same pipeline under generated
+scenarios ("dense" shape: an assertion block after every one or two given/when steps) with CORPUS_LIMIT instead of
+LIMIT: in long_run.yaml one step triggers 1502 (eventless loop) or 1203 (chain of internal events) macro steps.  The
+model stays in the loop (it replays the recorded execute() results; about 10 s of vm_compute per such file).
+corpus/C19/*.json are fixed scenarios with the statuses the property demands (also run through the sismic-bdd CLI).
 """
 import atexit
 import json
@@ -33,7 +45,8 @@ PROP = 'C19'
 PROOF_FILES = ['theories/Bdd.v', 'proofs/BddProofs.v']
 OWN_FILES = ['theories/Bdd.v', 'theories/BddCorr.v', 'proofs/BddProofs.v', 'props/C19_Props.v']
 CORPUS = '/verif/corpus/C19'
-LIMIT = 400           # execute(max_steps): a chart that needs more is discarded as looping
+LIMIT = 400           # execute(max_steps): a generated chart that needs more is discarded as looping
+CORPUS_LIMIT = 20000  # the same for the hand-written charts of the corpus (one step may trigger thousands of macro steps)
 STATUS = {'passed': 'Passed', 'failed': 'Failed', 'error': 'Error', 'hook_error': 'HookError',
           None: 'Skipped', 'skipped': 'Skipped', 'untested': 'Skipped', 'undefined': 'Undefined'}
 EVENTS = ['e0', 'e1', 'e2']
@@ -164,10 +177,25 @@ def py_eval(interp, expr):
         return None
 
 
+def value_kind(ctx, x):
+    """coverage only: what sort of value a `variable` assertion is about."""
+    if x not in ctx:
+        return 'undefined'
+    v = ctx[x]
+    if v is None:
+        return 'none'
+    if isinstance(v, (list, tuple, dict, set, frozenset)):
+        return 'container' if v else 'empty_container'
+    if isinstance(v, (bool, int, str)) and not v:
+        return 'falsy_%s' % type(v).__name__
+    return 'other'
+
+
 class Oracle:
-    def __init__(self, sc, feature_sems, exprs=()):
+    def __init__(self, sc, feature_sems, exprs=(), limit=None):
         from sismic.interpreter import Interpreter
         self.sc = sc
+        self.limit = LIMIT if limit is None else limit
         self.interp = Interpreter(sc)
         self.feature = feature_sems      # name -> list of (ty, sem)
         self.exprs = list(exprs)
@@ -189,10 +217,10 @@ class Oracle:
 
     def execute(self, ty):
         try:
-            ms = self.interp.execute(max_steps=LIMIT)
+            ms = self.interp.execute(max_steps=self.limit)
         except Exception:   # noqa
             ms = None
-        if ms is not None and len(ms) >= LIMIT:
+        if ms is not None and len(ms) >= self.limit:
             raise Looping()
         self.ops.append(('execute',))
         self.script.append((ms, self.snapshot()))
@@ -314,7 +342,9 @@ class Oracle:
         f = self.fact(sem)
         stale = self.whens_since_then == 0          # no when step since the previous then step
         alt = self.fact(sem, [] if stale else self.run_block)
-        td = dict(block=list(self.block), fact=f, strict=alt, stale=stale, given_between=self.given_between and not stale)
+        td = dict(block=list(self.block), fact=f, strict=alt, stale=stale, given_between=self.given_between and not stale,
+                  value_kind=value_kind(self.interp.context, sem[1]) if sem[0] in ('vareq', 'varne') else None,
+                  longest_run=max([len(e[0]) for e in self.script if e[0] is not None] or [0]))
         self.whens_since_then = 0
         return ('Error' if f is None else ('Passed' if f else 'Failed')), td
 
@@ -344,7 +374,33 @@ def make_chart(seed):
     sc = genchart.valid_chart(rng, prof)
     sanitize(sc)
     sc._preamble = 'x = 0\ny = 0\ng = %d\nc = 0' % rng.choice([4095, 4095, rng.getrandbits(12), rng.getrandbits(12)])
+    diversify(rng, sc)
     return sc
+
+
+# values a statechart variable may legitimately hold besides the integers of the generated guards: None, the
+# booleans, 0, the empty string, (empty) containers.  u and w are written by actions only and never read by a guard
+# or by another action, so the behaviour of the chart is unchanged; `variable` / `expression` assertions are
+# generated about them.
+VAR_INIT = ['None', 'None', 'False', 'True', '0', "''", "'a'", '[]', '{}', '()', '[0]', '7']
+VAR_ASSIGN = ['None', 'None', 'False', 'True', '0', "''", "'a'", 'x', '[]', '[x]', '{}', "{'k': x}", '(x,)',
+              'None if {v} is not None else x', 'not {v}', 'x == y']
+
+
+def diversify(rng, sc):
+    sc._preamble += '\nu = %s\nw = %s' % (rng.choice(VAR_INIT), rng.choice(VAR_INIT))
+
+    def more(code):
+        if code is None or rng.random() >= 0.3:
+            return code
+        v = rng.choice(['u', 'u', 'w'])
+        return code + '\n%s = %s' % (v, rng.choice(VAR_ASSIGN).replace('{v}', v))
+    for n in sc.states:
+        st = sc.state_for(n)
+        if hasattr(st, 'on_entry'):
+            st.on_entry = more(st.on_entry)
+    for t in sc.transitions:
+        t.action = more(t.action)
 
 
 PVALS = [0, 1, 2, 3, -1, True, False, None, 'a', 'b c']
@@ -381,7 +437,9 @@ def gen_action(rng, k, names, depth=0, allow_fail=True):
 
 
 EXPRS = ['x == %d', 'x + y >= %d', 'x > y', 'y != %d', 'x', 'not (x == %d)', "active('%s')", 'time >= %d',
-         'q9 == %d', '"a" == "a" and x == %d']
+         'q9 == %d', '"a" == "a" and x == %d',
+         'u is None', 'u is not None', 'not u', 'u', 'u == None', 'u == 0', 'u == False', "u == ''", 'w is None', 'not w', 'w',
+         'w == [] or w == {} or w == ()', 'u == w', 'x == %d and u is None']
 
 
 def candidates(rng, o, kind):
@@ -444,6 +502,21 @@ def candidates(rng, o, kind):
         out.append((kind, 'x', 'a'))
         out.append((kind, 'x', None))
         out.append((kind, 'q9', 0))
+        # every other variable of the context, whatever it holds: its own value (when it is a literal the model
+        # reads) and look-alikes of another type (None / False / 0 / '' are pairwise different, except False == 0)
+        for x in sorted(ctx):
+            if x in ('x', 'y', 'g', 'c'):
+                continue
+            cur = ctx[x]
+            if callable(cur) or isinstance(cur, float):
+                continue
+            if cur is None or isinstance(cur, (bool, int)) or (isinstance(cur, str) and PLAIN_STR.match(cur)):
+                out.append((kind, x, cur))
+                out.append((kind, x, cur))
+            elif not isinstance(cur, (list, tuple, dict)):
+                continue
+            for other in rng.sample(LOOKALIKES, 3):
+                out.append((kind, x, other))
     elif kind in ('expr', 'notexpr'):
         ctx = o.interp.context
         for _ in range(6):
@@ -461,6 +534,9 @@ def candidates(rng, o, kind):
         out.append((kind,))
     return out
 
+
+PLAIN_STR = re.compile(r'^[A-Za-z0-9 _]*$')
+LOOKALIKES = [None, False, True, 0, 1, '', 'a', 'None', 3]
 
 KINDS = ['entered', 'notentered', 'exited', 'notexited', 'active', 'notactive', 'fired', 'fired', 'notfired',
          'noevent', 'vareq', 'varne', 'expr', 'notexpr', 'final', 'notfinal']
@@ -487,8 +563,10 @@ def choose_then(rng, o, target):
     return ('notfinal',) if target != bool(o.interp.final) else ('final',)
 
 
-def gen_feature(rng, sc, n_scen):
-    """returns list of scenarios: dict(name, lines=[dict(kw, ty, text, table, sem)], oracle data...)"""
+def gen_feature(rng, sc, n_scen, limit=None, dense=False):
+    """returns list of scenarios: dict(name, lines=[dict(kw, ty, text, table, sem)], oracle data...)
+    dense: 2 to 4 blocks of one or two given/when steps, each followed by then steps (an assertion right after
+    most actions) instead of one or two longer blocks."""
     feature_sems = {}
     scens = []
     exec_raised = 0
@@ -496,17 +574,20 @@ def gen_feature(rng, sc, n_scen):
         name = 's%d' % k
         names = [s['name'] for s in scens if s['reproducible']]
         for attempt in range(6):
-            o = Oracle(sc, feature_sems)
+            o = Oracle(sc, feature_sems, limit=limit)
             lines = []
             statuses = []
             thens = []
             alive = True
             no_when = rng.random() < 0.06
-            n_parts = 2 if rng.random() < 0.3 else 1
+            n_parts = rng.randint(2, 4) if dense else (2 if rng.random() < 0.3 else 1)
             uses = set()
             try:
                 for part in range(n_parts):
-                    n_act = rng.randint(1, 4) if part == 0 else rng.randint(0, 3)
+                    if dense:
+                        n_act = rng.randint(1, 2)
+                    else:
+                        n_act = rng.randint(1, 4) if part == 0 else rng.randint(0, 3)
                     has_when = False
                     for j in range(n_act):
                         if no_when:
@@ -526,10 +607,12 @@ def gen_feature(rng, sc, n_scen):
                     last = part == n_parts - 1
                     target = True if not last else (rng.random() < 0.5)
                     n_then = 1 if not last or rng.random() < 0.85 else 2
+                    if dense and not last:
+                        n_then = rng.randint(2, 4)     # several true assertions about the same block / state
                     for j in range(n_then):
                         if alive:
                             exprs_before = list(o.exprs)
-                            sem = choose_then(rng, o, target if j == 0 else rng.random() < 0.5)
+                            sem = choose_then(rng, o, target if (j == 0 or not last) else rng.random() < 0.5)
                             if sem[0] in ('expr', 'notexpr') and sem[1] not in o.exprs:
                                 # the snapshot the model reads must know this expression
                                 o.exprs.append(sem[1])
@@ -767,6 +850,14 @@ def chart_task_safe(args):
         return dict(seed=args[0], error='worker failed', detail=traceback.format_exc()[-2000:])
 
 
+def corpus_chart_task_safe(args):
+    try:
+        return corpus_chart_task(args)
+    except BaseException:   # noqa
+        import traceback
+        return dict(seed=args[2], error='worker failed on corpus chart %s' % args[0], detail=traceback.format_exc()[-2000:])
+
+
 def chart_task(args):
     seed, n_scen, record = args
     sys.path.insert(0, os.path.dirname(os.path.abspath(__file__)))
@@ -793,9 +884,39 @@ def chart_task(args):
             continue
     else:
         return dict(seed=seed, error='no usable chart', detail=last)
+    return run_chart(seed, cseed, sc, scens, rng, record)
+
+
+def corpus_chart_task(args):
+    """a hand-written chart of the corpus (corpus/C19/*.yaml, events e0 e1 e2) under generated scenarios: same
+    pipeline as a generated chart (oracle, behave, Coq model), with a run-length limit that lets one step trigger
+    thousands of macro steps."""
+    fn, yaml_text, seed, n_scen, record = args
+    sys.path.insert(0, os.path.dirname(os.path.abspath(__file__)))
+    from sismic.io import import_from_yaml
+    last = None
+    for attempt in range(5):
+        try:
+            sc = import_from_yaml(yaml_text)
+            scens = gen_feature(random.Random(seed * 1000 + attempt), sc, n_scen, limit=CORPUS_LIMIT, dense=(seed % 4) < 3)
+            break
+        except Looping:
+            last = 'a step of every candidate feature needs %d macro steps or more' % CORPUS_LIMIT
+        except Exception:   # noqa
+            import traceback
+            last = traceback.format_exc()
+    else:
+        return dict(seed=seed, error='corpus chart %s unusable' % fn, detail=last)
+    out = run_chart(seed, '%s/%d' % (fn, seed), sc, scens, random.Random(seed), record)
+    out['corpus_chart'] = fn
+    return out
+
+
+def run_chart(seed, cseed, sc, scens, rng, record):
+    import sx
     order = list(range(len(scens)))
     rng.shuffle(order)
-    text = feature_text('F%d' % cseed, scens, order)
+    text = feature_text('F%s' % cseed, scens, order)
     res, logs, names = run_behave(sc, text, record)
     from sismic.io import export_to_yaml
     out = dict(seed=seed, cseed=cseed, text=text, yaml=export_to_yaml(sc), states=list(sc.states), record=record,
@@ -815,7 +936,8 @@ def chart_task(args):
                 thens.append(None)
             else:
                 thens.append(dict(block=[sx.macro_value(s['interp'], m) for m in td['block']], fact=td['fact'],
-                                  strict=td['strict'], stale=td['stale'], given_between=td['given_between']))
+                                  strict=td['strict'], stale=td['stale'], given_between=td['given_between'],
+                                  value_kind=td['value_kind'], longest_run=td['longest_run']))
         rl = log_by_name.get(s['name'])
         impl_macros_ok = None
         if rl is not None:
@@ -1140,6 +1262,15 @@ def load_corpus():
     return out
 
 
+def load_corpus_charts():
+    out = []
+    if os.path.isdir(CORPUS):
+        for fn in sorted(os.listdir(CORPUS)):
+            if fn.endswith('.yaml'):
+                out.append((fn, open(os.path.join(CORPUS, fn)).read()))
+    return out
+
+
 def corpus_task(item):
     """a corpus seed: chart yaml + feature text + expected statuses per scenario."""
     fn, seed = item
@@ -1221,12 +1352,17 @@ def main(tier, seed):
     tasks = [(seed * 100003 + i, n_scen, (i % 4) != 3) for i in range(n_charts)]
     t1 = time.time()
     corpus = load_corpus()
+    cc = load_corpus_charts()
+    n_cc = 4 if tier == 'quick' else 16
+    ctasks = [(fn, y, seed * 100 + j, 10, j % 2 == 0) for fn, y in cc for j in range(n_cc)]
     from concurrent.futures import ProcessPoolExecutor
     with ProcessPoolExecutor(max_workers=NCPU) as ex:
         fc = [ex.submit(corpus_task, c) for c in corpus]      # the corpus (regression seeds) is replayed first
         fm = ex.submit(matcher_task, (seed, 1 if tier == 'quick' else 6))
         fcli = ex.submit(cli_task, corpus)
+        fcc = [ex.submit(corpus_chart_task_safe, t) for t in ctasks]   # long runs: started first
         results = list(ex.map(chart_task_safe, tasks, chunksize=1))
+        results += [f.result() for f in fcc]
         try:
             mres = fm.result()
         except BaseException as e:   # noqa  e.g. behave refuses the step definitions (AmbiguousStep)
@@ -1247,10 +1383,16 @@ def main(tier, seed):
     files = []
     shard = 4 if tier == 'quick' else 8
     idx_of = {}
-    for k in range(0, len(charts), shard):
+    gen_charts = [c for c in charts if not c[1].get('corpus_chart')]
+    for k in range(0, len(gen_charts), shard):
         fn = os.path.join(d, 'cases_%d.v' % (k // shard))
-        idx_of[fn] = write_case_file(fn, charts[k:k + shard], mres['ci'])
+        idx_of[fn] = write_case_file(fn, gen_charts[k:k + shard], mres['ci'])
         files.append(fn)
+    for c in charts:
+        if c[1].get('corpus_chart'):      # a case file of its own (thousands of macro steps per scenario)
+            fn = os.path.join(d, 'cases_corpus_%d.v' % c[0])
+            idx_of[fn] = write_case_file(fn, [c], mres['ci'])
+            files.append(fn)
     tests = [t for _, r in charts for t in r['tests']]
     tfiles = []
     tshard = 120
@@ -1312,6 +1454,9 @@ def main(tier, seed):
                  unquoted_expression=0, failing_action=0, reproduced_steps_with_table=0, raising_expression=0)
     impl_traces = 0
     samples = []
+    value_kinds = {}
+    longest_run = 0
+    then_after_long_run = 0
     for ci_, ch in charts:
         for si, s in enumerate(ch['scens']):
             if s['behave'] is None:
@@ -1362,6 +1507,12 @@ def main(tier, seed):
                 kind = sem[0]
                 if kind in ('expr', 'notexpr') and not sem[2]:
                     usage['unquoted_expression'] += 1
+                if td is not None and td.get('value_kind'):
+                    vk = value_kinds.setdefault(td['value_kind'], dict(true=0, false=0))
+                    vk['true' if td['fact'] else 'false'] += 1
+                if td is not None:
+                    longest_run = max(longest_run, td.get('longest_run', 0))
+                    then_after_long_run += 1 if td.get('longest_run', 0) > 1000 else 0
                 if td is not None:
                     key = 'true' if td['fact'] is True else ('false' if td['fact'] is False else 'error')
                     if td['fact'] is None and len(sem) > 1 and sem[1] == 'nosuch':
@@ -1454,6 +1605,10 @@ def main(tier, seed):
     for r in results:
         if r.get('behave_error') and not r.get('scens'):
             pass
+    for r in results:
+        if r.get('corpus_chart') is None and str(r.get('error', '')).find('corpus chart') >= 0:
+            v.violation(dict(property=PROP, broken=r['error'], detail=r.get('detail')), tag='cgen', no_input=True)
+            n_viol += 1
     if len(charts) < max(1, n_charts // 2):
         v.violation(dict(property=PROP, broken='the generator produced too few usable charts (%d of %d)' % (len(charts), n_charts),
                          detail=[r.get('detail') for r in results if r.get('error')][:2]), tag='gen', no_input=True)
@@ -1485,7 +1640,10 @@ def main(tier, seed):
              'sismic.testing call, or one matcher query, or one corpus scenario; non-trivial = scenario whose then step was '
              'executed on a non-empty block of macro steps; distinct = distinct (chart, scenario text)',
         scenarios=n_cases, then_steps_executed=n_then_exec, charts=len(charts), charts_discarded=len(results) - len(charts),
-        assertions_by_kind=dist, usage=usage, traces_validated_against_impl=impl_traces,
+        assertions_by_kind=dist, usage=usage, variable_assertions_by_kind_of_current_value=value_kinds,
+        corpus_charts=dict(files=[fn for fn, _ in cc], runs=len(ctasks), usable=sum(1 for _, c in charts if c.get('corpus_chart')),
+                           longest_run_of_one_step_in_macro_steps=longest_run, then_steps_after_a_run_over_1000=then_after_long_run,
+                           checked_against='Python oracle and Coq model (BddCorr.check_cases), like the generated charts'), traces_validated_against_impl=impl_traces,
         recorded_interpreter_runs=sum(1 for _, c in charts if c['record']), default_interpreter_runs=sum(1 for _, c in charts if not c['record']),
         testing_predicate_calls=n_t, matcher_queries=len(mcases), matcher_case_insensitive=mres['ci'],
         matcher_queries_where_behave_raised=len(mres['cases']) - len(mcases),
